@@ -159,6 +159,8 @@ def analyse(case, res):
             fails.append(("assertion-failed:" + label, "step %d: assertion failed in %s of %s: %s" % (i, label, proc, ob.get("err", ""))))
         if out == "error:tlatype":
             fails.append(("tla-type-error:" + label, "step %d: TLA+ type error in %s of %s: %s" % (i, label, proc, ob.get("err", "")[:200])))
+        for st in ob.get("stale") or []:
+            breaks.append("step %d: stale local state (an aborted attempt was not rolled back?): %s" % (i, st))
         # reads of server locals must agree with what was tracked (initially msg = defaultInitValue, q = <<>>)
         if proc == "server":
             written = set()
@@ -236,7 +238,7 @@ def analyse(case, res):
 
 def run(ctx):
     rng = ctx.rng
-    nwalks = 220 if ctx.tier == "quick" else 5000
+    nwalks = 160 if ctx.tier == "quick" else 5000
     if ctx.replay:
         rp = json.load(open(ctx.replay))
         cases = [rp["case"]]
@@ -335,7 +337,7 @@ MANIFEST = {
              "spec-state resources (harness/steplib); the model runs the same schedule in Coq and every post-state (network bags, hasLock, msg, q, every pc, "
              "the two history lists) and every outcome (commit / disabled / finished / assertion) is compared; an implementation-side oracle checks mutual exclusion, "
              "grant-only-to-waiting and FIFO directly on the observed Go states."),
-    "level_note": ("Trusted: Coq kernel; the hand-written model (tie = differential testing on 220 quick / 5000 thorough schedules for 1-5 clients, all seven labels and both "
+    "level_note": ("Trusted: Coq kernel; the hand-written model (tie = differential testing on 160 quick / 5000 thorough schedules for 1-5 clients, all seven labels and both "
                    "branches of every await reached); the spec-state resources that replace the deployment mailboxes (their atomicity/FIFO is C01/C06). "
                    "The liveness properties of the spec (ProgressOK, NoPriorityInversion) are not claimed."),
 }
